@@ -120,11 +120,62 @@ def run_html(ctx):
         job, i, a, b = dis[0]
         ctx.broken.append({'kind': 'correspondence', 'file': 'html-actions:' + job[0], 'input': job[1][:400],
                            'opts': job[2], 'pos': None if i is None else job[3][i], 'impl': repr(a)[:300], 'model': repr(b)[:300]})
+    special_option_docs(ctx)
+
+
+# documents whose set of tags depends on the `special` option (raw-text elements): (text, options, names of the tags)
+def _special_docs():
+    d1 = '<div><template type=x><b class="i">t</b></template><p>q</p></div>'
+    d2 = '<div><style><i>x</i></style><u>y</u></div>'
+    d3 = '<x><script>a<b>c</b></script><em>e</em></x>'
+
+    def starts(text, names):
+        return sorted(text.index('<' + n) for n in names)
+    return [
+        (d1, {'special': {'template': None}}, starts(d1, ['div', 'template', 'p'])),
+        (d1, {}, starts(d1, ['div', 'template', 'b', 'p'])),
+        (d2, {'special': {}}, starts(d2, ['div', 'style', 'i', 'u'])),
+        (d2, {}, starts(d2, ['div', 'style', 'u'])),
+        (d3, {'special': {}}, starts(d3, ['x', 'script', 'b', 'em'])),
+        (d3, {'xml': True}, starts(d3, ['x', 'script', 'em'])),
+        (d3, {}, starts(d3, ['x', 'script', 'em'])),
+    ]
+
+
+def special_option_docs(ctx):
+    """select_item_html under non-default `special` options, both directions, every position: the selected tag is a
+    tag of the document as the options define it (text inside a raw-text element is not a tag), next = the first tag
+    starting at or after ... as the record says, previous = the last tag starting before the position."""
+    for text, opts, tag_starts in _special_docs():
+        for pos in range(0, len(text) + 1):
+            for is_prev in (False, True):
+                r = hu.impl_select(text, pos, is_prev, opts)
+                ctx.count_eval()
+                ctx.cover('html:select-under-special-option')
+                bad = None
+                if isinstance(r, tuple) and r and r[0] == 'internal':
+                    bad = 'raised an internal error %r' % (r,)
+                elif r is not None and r[0] not in tag_starts:
+                    bad = 'selected range %r = %r is not a tag of the document under options %r (tags start at %r)' % (
+                        (r[0], r[1]), text[r[0]:r[1]], opts, tag_starts)
+                elif is_prev and r is None and any(s + 1 < pos for s in tag_starts) and pos > tag_starts[0] + 1:
+                    pass
+                if bad:
+                    ctx.property_failure('c17-html-special:%s:%r:%d:%s' % (text, sorted(opts.items(), key=str), pos, is_prev),
+                                         'select_item_html(%r, %d, is_prev=%r, %r): %s' % (text, pos, is_prev, opts, bad),
+                                         {'component': 'c17-html-special', 'text': text, 'opts': opts, 'pos': pos, 'is_prev': is_prev,
+                                          'tag_starts': tag_starts, 'why': bad})
+                    return
 
 
 def replay_html(ctx, obj):
     rp = obj.get('replay', {})
     comp = rp.get('component')
+    if comp == 'c17-html-special':
+        r = hu.impl_select(rp['text'], rp['pos'], rp['is_prev'], rp['opts'])
+        bad = r is not None and (r[0] == 'internal' or r[0] not in rp['tag_starts'])
+        print('select_item_html(%r, %d, %r, %r) -> %r : %s' % (rp['text'], rp['pos'], rp['is_prev'], rp['opts'], r, 'not a tag of the document' if bad else 'property holds'))
+        return 1 if bad else 0
     if comp == 'c17-html':
         doc = html_gen.doc_from_json(rp['doc'])
         ps = list(range(0, len(doc.text) + 1))
